@@ -130,6 +130,25 @@ func (s *sess) call(op Op) (res opResult, pv any) {
 			res.err = s.store.Close()
 		case "discard":
 			s.store.Discard()
+		case "restart_clean", "restart_final":
+			// close the instance (Discard / Finalize) and reopen the same file with the same roots and options;
+			// a no-op unless the store is certainly open
+			if s.m.State != stOpen {
+				return
+			}
+			if op.Kind == "restart_final" {
+				res.err = s.store.Finalize()
+			} else {
+				s.store.Discard()
+			}
+			if res.err == nil {
+				var ns Store
+				ns, res.err = OpenStore(s.env, s.t.Cfg)
+				sim.CurrentFS = s.env.FS
+				if res.err == nil {
+					s.store = ns
+				}
+			}
 		default:
 			panic(&InfraError{"unknown op " + op.Kind})
 		}
@@ -338,6 +357,15 @@ func (s *sess) accept(st int, op Op, res opResult) (ok bool, next int, apply fun
 			return true, st, nil, "" // abandoning a StorageCar instance is not an API call
 		}
 		return true, stClosed, nil, ""
+	case "restart_clean", "restart_final":
+		// only generated while the store is certainly open; the resumed store is open and holds the same sections
+		if st != stOpen {
+			return true, st, nil, "inconclusive"
+		}
+		if res.err != nil {
+			return false, 0, nil, fmt.Sprintf("closing and reopening the same file with the same roots and options failed: %v", res.err)
+		}
+		return true, stOpen, nil, ""
 	}
 	panic(&InfraError{"accept: unknown op " + op.Kind})
 }
@@ -425,7 +453,7 @@ func (s *sess) step(op Op, audit bool) *Violation {
 
 func isMutating(k string) bool {
 	switch k {
-	case "put", "putmany", "finalize", "finalize_ro", "close", "discard":
+	case "put", "putmany", "finalize", "finalize_ro", "close", "discard", "restart_clean", "restart_final":
 		return true
 	}
 	return false
